@@ -96,3 +96,16 @@ contract("C03.get_tag_forms",
              "all(tag_forms[k] != '#' for k in range(len(tag_forms) - 1))",
              "all(len(tag_forms[k]) > len(name_key) for k in range(len(tag_forms)))",
          ]}})
+
+# C03 at table level ("the suffix is carried verbatim" in short AND long form): the table wrappers convert every cell with the tag property
+# that is the complete short / long form of a tag (short_tag / long_tag keep value, extension and prefix; the *_base_tag properties drop them)
+class_model("BaseInputConv", {})
+contract("C03.table_convert_to_form", file="hed/models/base_input.py", func="BaseInput.convert_to_form",
+         params={"self": "BaseInputConv", "hed_schema": "Opaque", "tag_form": "Str"}, returns=None, enc="native", trusted=True,
+         self_class="BaseInputConv", ghost={"sets": {"form_used": "tag_form", "conversions": "conversions + 1"}},
+         assume=["convert_to_form applies the named HedTag property to every tag of every HED column (df_util.convert_to_form; bounded workload rt/c03)"])
+for _nm, _form in (("short", "short_tag"), ("long", "long_tag")):
+    contract(f"C03.table_{_nm}_form_is_the_complete_{_nm}_tag", file="hed/models/base_input.py", func=f"BaseInput.convert_to_{_nm}",
+             params={"self": "BaseInputConv", "hed_schema": "Opaque"}, returns=None, enc="native", self_class="BaseInputConv",
+             ghost={"init": {"form_used": "''", "conversions": "0"}},
+             ensures={f"C03.table.{_nm}_conversion_uses_{_form}": f"conversions == 1 and form_used == '{_form}'"})
